@@ -349,11 +349,59 @@ def r5_status_mapping(ctx):
                   sample={"variants_built": sorted(variants)})
         ctx.check("ServerError" in variants or "ServiceUnavailable" in variants, rule, [c.body.id, "5xx-retryable"], "5xx becomes a retryable variant",
                   "%s no longer maps server errors to a retryable variant" % c.body.id, c.loc())
+        # the always-retryable variant is built only where the status was tested to be 5xx (a catch-all `else` would also make 3xx and
+        # unknown classes retryable: a final 304 would be retried max_attempts times)
+        for (fb, i, j, st) in variants.get("ServerError", []):
+            tests = [x for x in fb.calls if re.search(r"StatusCode::is_server_error$", x.name)]
+            guarded = False
+            for x in tests:
+                rl, _ = result_local(fb, x)
+                for (sbb, tt, ft) in bool_switches(fb, rl):
+                    if fb.dominates(tt, i) and tt != ft:
+                        guarded = True
+            # or an explicit numeric class test 500..=599 on the status
+            ctx.check(guarded, rule, [c.body.id, "server-error-only-on-5xx"], "ServerError is built on the is_server_error() edge",
+                      "%s builds ProtocolError::ServerError (retryable for every status) on a path that is not the true edge of is_server_error(): statuses "
+                      "outside 5xx (a final 3xx, 1xx) become retryable, so the operation is repeated instead of stopping at the first non-retryable error" %
+                      ctx._stable(c.body.id), "%s:%d" % (fb.file, st["l"]))
         ctx.check("HttpStatus" in variants, rule, [c.body.id, "rest-http-status"], "other statuses become HttpStatus (non-retryable for 4xx)",
                   "%s no longer maps remaining statuses to HttpStatus" % c.body.id, c.loc())
 
 
+def r6_hint_source(ctx):
+    """the hint is the server's Retry-After header and nothing else: any other header consulted by parse_retry_after (a reset
+    timestamp, a rate-limit window) is fed to Duration::from_secs as if it were a delay"""
+    rule = "C14.R6"
+    ctx.rule(rule, "parse_retry_after consults only the Retry-After header")
+    bs = [b for b in ctx.prog.bodies.values() if b.krate == "cascette_protocol" and b.item == "parse_retry_after" and not b.root]
+    if not ctx.anchor(rule, bs, "cdn::parse_retry_after"):
+        return
+    n = 0
+    for fb in ctx.prog.family(bs[0]):
+        ctx.saw(fb)
+        for c in fb.calls:
+            if not re.search(r"HeaderMap::<T>::(get|get_all|contains_key)$|HeaderValue|headers::\w+$", c.name) or not re.search(r"::(get|get_all|contains_key)$", c.name):
+                continue
+            if len(c.args) < 2:
+                continue
+            n += 1
+            names = []
+            l = op_local(c.args[1])
+            consts = Slice(fb, [l], transparent=True).consts if l is not None else [c.args[1]]
+            for o in consts:
+                if o.get("k") != "c":
+                    continue
+                v = o.get("uneval") or o.get("s") or ""
+                names.append(str(v))
+            ok = bool(names) and all(re.search(r"RETRY_AFTER$", x) or x.strip('"').lower() == "retry-after" for x in names)
+            ctx.check(ok, rule, [fb.id, "header", ",".join(sorted(names))[:40]], "header lookup is Retry-After",
+                      "%s reads the retry hint from header %s: the property's hint is the server's Retry-After; another header's number (for example an epoch "
+                      "reset time) becomes a wait of that many seconds" % (ctx._stable(fb.id), names), c.loc(), sample={"header_consts": names})
+    ctx.floor(rule, n, 1, "header lookups in parse_retry_after")
+
+
 def run(ctx):
+    r6_hint_source(ctx)
     r_execute(ctx)
     r_hint_accessor(ctx)
     r5_status_mapping(ctx)
